@@ -39,7 +39,7 @@ ENUM = {'maxsize': 'MAXSIZE', 'minsize': 'MINSIZE', 'gen': 'GENEROUS', 'gre': 'G
 
 
 def BOUNDS(tier):
-    return ('presence subsets of the 9 criteria of size 0..%d (all of them), positions and extras symbolic unbounded integers, 2 flag permutations '
+    return ('presence subsets of the 9 criteria of size 0..%d (all of them; quick additionally 10 sampled subsets of size 3), positions and extras symbolic unbounded integers, 2 flag permutations '
             'per subset, entry points parse() and Solver(); -stab x -twopl; downstream: %d E2 runs with gapped positions'
             % ((2, 60) if tier == 'quick' else (3, 240)))
 
@@ -59,6 +59,9 @@ def tasks(tier, seed):
                             'perm': list(reversed(range(k))), 'entry': 'solver' if k == 2 else 'parse'})
             elif k == 1:
                 out.append({'kind': 'parse', 'present': list(sub), 'nextra': [NEXTRA.get(c, 0) for c in sub], 'perm': perm, 'entry': 'solver'})
+    if tier == 'quick':
+        for sub3 in rng.sample(list(itertools.combinations(CRITS, 3)), 10):
+            out.append({'kind': 'parse', 'present': list(sub3), 'nextra': [0, 0, 0], 'perm': [2, 0, 1], 'entry': 'parse'})
     for stab, twopl in itertools.product([False, True], repeat=2):
         out.append({'kind': 'stab', 'stab': stab, 'twopl': twopl})
     # downstream order
